@@ -25,14 +25,16 @@ import gin
 from gin import config as gc
 from gin import selector_map
 
-BOUNDS = ('map mode: 1-3 SelectorMaps, names over labels {a,b,c} with 1-4 components, '
-          'histories of <= 7 set/pop/copy/clear/invalid ops audited after every op on '
-          'all suffix/prefix/foreign queries; quick additionally enumerates every name set '
-          'of size <= 2 over labels {a,b} (insert all, audit, pop each), thorough every '
-          'set of size <= 3 over {a,b,c}; api mode: 2-5 configurables named '
-          '<1-2 modules over {a,b,c}>.<f|g>, every (spelling, spelling) pair of a target '
-          'x 5 write paths x 5 write paths x 2 scopes sampled, all 6 read paths; const '
-          'mode: 1-4 dotted constants, every suffix spelling, before/after clear_config')
+BOUNDS = ('map mode: 1-3 SelectorMaps (original + copies), names over labels {a,b,c} with '
+          '1-4 components, histories of <= 7 set/pop/copy/clear/invalid-set ops, the whole '
+          'view audited after every op on all suffix, prefix and foreign queries; quick '
+          'also enumerates every name set of size <= 2 over labels {a,b} depth <= 3 '
+          '(insert all, pop each, both orders), thorough every set of size <= 3 over '
+          '{a,b,c}; api mode: 2-5 configurables named <1-2 modules over {a,b,c}>.<f|g>, a '
+          'target, two of its unambiguous spellings, 5 write paths x 5 write paths x 3 '
+          'scopes sampled, all 6 read paths, <= 4 ambiguous/unknown spellings through all '
+          'paths; const mode: 1-4 dotted constants, every suffix spelling, fresh / after '
+          'clear_config / after clear_config(clear_constants=True)')
 EXHAUSTIVE = {'quick': False, 'thorough': False}
 
 _SENT = object()
@@ -147,7 +149,7 @@ def _check_map(case, fails):
   maps, models = [selector_map.SelectorMap()], [{}]
   names = [op[2] for op in case['ops'] if op[0] in ('set', 'pop')]
   queries = _queries(names) if names else ['a', 'z']
-  for step, (op, i, name, val) in enumerate(case['ops']):
+  for op, i, name, val in case['ops']:
     i = i % len(maps)
     sm, model = maps[i], models[i]
     if op == 'set':
@@ -290,6 +292,8 @@ def _check_api(case, fails):
       if _snapshot() != before or gin.config_is_locked():
         _fail(fails, clause, before, [_snapshot(), gin.config_is_locked()],
               'write=%s changed config' % w)
+      if fails:
+        return
     for r in ('query', 'get_bindings', 'call'):
       try:
         got = _read(r, scope, bad, wrappers, tfull, consume)
